@@ -28,6 +28,10 @@ CHECKS = {
    text="Model-based state-machine search over a SURVEYOR socket (1-3 contexts, 1-3 scripted respondents): every survey must reach every connected pipe exactly once with one id; Recv results are compared with a model holding, per context, the current survey id and the arrival-ordered queue of valid responses (stale, foreign, bit-less, short and random responses must vanish); Recv without a survey must fail promptly with ErrProtoState. Real-time expiry scenarios (150-300 ms): early response delivered, Recv across/after expiry fails with ErrProtoState not before the survey time, late responses discarded, zero survey time never expires.",
    note="Expiry scenarios are real time: 'after expiry' = survey time + 300 ms; the lower bound (not before the survey time) is exact. RESPONDENT-side routing is decided by C05.",
    technique="stateful property-based testing (rapid) against a reference model over a virtual transport, plus timed expiry scenarios"),
+ "C06": dict(
+   text="(A) Model-based state-machine search on a SUB socket (1-3 contexts, queue 4) fed by scripted publishers over a 4-letter alphabet (empty / equal / prefix-related / non-UTF8 topics frequent): Recv must return exactly the model's oldest pending matching publication, time out iff none is pending, never deliver a message pruned by a completed Unsubscribe; Unsubscribe of an absent topic must fail. (B) Real PUB/XPUB x 1-4 SUB x 1-2 contexts over inproc/tcp/ipc: each context receives exactly the matching subsequence of each publisher's stream (END sentinels per publisher make absence decidable), once, in order, byte-identical, and a mutation of a received body is invisible to other contexts.",
+   note="After a queue overflow the statement allows losses, so the model then only demands order-preserving delivery of candidates. Queue resizes are outside C06 (C19).",
+   technique="stateful property-based testing (rapid) against a reference prefix-matcher/queue model over a virtual transport; generated fan-out topologies with sentinel messages"),
 }
 
 ALL = ["C%02d" % i for i in range(1, 21)]
